@@ -118,6 +118,7 @@ type End struct {
 	peer *End
 
 	closed    bool
+	closedCh  chan struct{} // closed by Close: ends an injected delay of a pending operation
 	rdl, wdl  time.Time
 	rEntry    *Entry
 	wEntry    *Entry
@@ -138,8 +139,8 @@ type End struct {
 func Pipe(s *Sim, name string) (a, b *End) {
 	ab := newDir(name + ".c2s")
 	ba := newDir(name + ".s2c")
-	a = &End{S: s, Name: name + ".cli", rd: ba, wr: ab}
-	b = &End{S: s, Name: name + ".srv", rd: ab, wr: ba}
+	a = &End{S: s, Name: name + ".cli", rd: ba, wr: ab, closedCh: make(chan struct{})}
+	b = &End{S: s, Name: name + ".srv", rd: ab, wr: ba, closedCh: make(chan struct{})}
 	a.peer, b.peer = b, a
 	return a, b
 }
@@ -214,7 +215,7 @@ func (e *End) maybeDelay(d *Dir) {
 	closed := e.closed
 	e.S.mu.Unlock()
 	if hit && !closed {
-		e.S.Sleep(dur)
+		e.S.SleepOr(dur, e.closedCh)
 	}
 }
 
@@ -481,6 +482,9 @@ func (e *End) Close() error {
 		return net.ErrClosed
 	}
 	e.closed = true
+	if e.closedCh != nil {
+		close(e.closedCh)
+	}
 	if s.DebugElig {
 		buf := make([]byte, 4096)
 		n := runtime.Stack(buf, false)
@@ -509,8 +513,7 @@ func (e *End) Close() error {
 		// a transport whose Close lingers (SO_LINGER, a TLS close_notify that cannot
 		// be written): the effects above are immediate, the call itself returns late
 		s.Stats["fault.close-lingers"]++
-		time.Sleep(linger)
-		s.kick()
+		s.SleepOr(linger, nil)
 	}
 	return nil
 }
